@@ -20,7 +20,17 @@ STATE_POOLS = [
     lambda i: [7, 'str', (1, 2), 2.5, frozenset([1]), -3][i % 6],
     # one state that is not equal to itself (found by identity in dicts and sets), and Python-equal-looking neighbours
     lambda i: [float('nan'), 'nan', (float('inf'),), -0.0, 10 ** 20][i % 5],
+    # states that are plain objects: hashable and comparable by identity only (a copy is NOT the same state)
+    lambda i: Token(i),
 ]
+
+
+class Token(object):
+    def __init__(self, i):
+        self.i = i
+
+    def __repr__(self):
+        return 'Token(%d)' % self.i
 ODD_LABELS = [3, (1, 2), None, 'not', 'or', 'A', 'E', 'X', 'U', 'true', '[E(p)]', '[A(X(p))]', '[E(X(p))]', 'fair',
               'fair0', 'p q', '', '(', '[E((p U q))]', 'AX', 'not p']
 ATOMS = ('p', 'q', 'zzz', '[E(p)]', 'fair')
@@ -111,8 +121,20 @@ def run(res):
             variants = [('keyword arguments', lambda: L.modelcheck(kripke=K, formula=to_obj(t, L))),
                         ('explicit defaults parser=None, F=None', lambda: L.modelcheck(K, to_obj(t, L), None, None)),
                         ('a deep copy of the structure', lambda: L.modelcheck(copy.deepcopy(K), to_obj(t, L)))]
+            Fl = [set(x for x in names if rng.random() < 0.5)]
+            def outcome(call):
+                try:
+                    with contextlib.redirect_stdout(io.StringIO()):
+                        return sorted(map(repr, call()))
+                except Exception as e:
+                    return 'raised ' + type(e).__name__
+            kw, pos = outcome(lambda: L.modelcheck(K, to_obj(t, L), F=Fl)), outcome(lambda: L.modelcheck(K, to_obj(t, L), None, Fl))
+            if kw != pos:
+                direct.append(('modelcheck(K, f, None, F) (documented order kripke, formula, parser, F) gives %r, modelcheck(K, f, F=F) %r'
+                               % (pos, kw), dict(ctx, F=[sorted(map(repr, P)) for P in Fl])))
             if txt is not None and all(isinstance(a_, str) and a_.isidentifier() for a_ in atoms):
                 variants.append(('the printed text and an explicit parser object', lambda: L.modelcheck(K, txt, parser=L.Parser())))
+                variants.append(('the printed text and an explicit parser object as third positional argument', lambda: L.modelcheck(K, txt, L.Parser())))
                 variants.append(('the printed text and the default parser', lambda: L.modelcheck(K, txt)))
             for how, call in variants:
                 try:
